@@ -35,6 +35,10 @@ def run(ck):
             else: evs.append(e)
         if rng.random() < 0.15 and len(evs) > 1: evs = evs[: rng.randrange(1, len(evs))]       # script runs out: the call must still be blocked, not return
         lines.append(("random multi-call histories incl. exhausted scripts", " ".join(evs) + " | " + " ".join(map(str, lens))))
+    # a successful open may legitimately return descriptor 0
+    for xlen in (1, 5, 32):
+        lines.append(("open returns descriptor 0", "OF OK0 RE RD1 RZ " + " ".join(["RD1"] * xlen) + " | %d %d" % (xlen, 1)))
+        lines.append(("open returns descriptor 0", "OK0 RD%d RD1 | %d 1" % (xlen, xlen)))
     # the 2^20 chunk limit
     big = (1 << 20) + 5
     lines.append(("chunk limit 2^20", "OK RD1048576 RD5 | %d" % big))
